@@ -17,6 +17,7 @@
 #include "draco/compression/bit_coders/symbol_bit_decoder.h"
 #include "draco/compression/bit_coders/symbol_bit_encoder.h"
 #include "draco/compression/config/compression_shared.h"
+#include "draco/compression/entropy/ans.h"
 #include "draco/core/bit_utils.h"
 #include "draco/core/decoder_buffer.h"
 #include "draco/core/encoder_buffer.h"
@@ -657,8 +658,30 @@ static std::string enum_varint_type(const char *name) {
   return "";
 }
 
+// The rABS coder (RAnsBitEncoder / AdaptiveRAnsBitEncoder / FoldedBit32Encoder) ends a sequence by flushing its final
+// state with ans_write_end() and the decoder starts from it with ans_read_init(): every state of the coder's interval
+// [L, L * 256) must survive that pair (the 2 / 3 / 4-byte forms are chosen by the state's size).
+static std::string enum_ans_final_states() {
+  // (ans.h undefines its DRACO_ANS_* macros at the end: L = 4096, IO base = 256)
+  const uint32_t DRACO_ANS_L_BASE = 4096u, DRACO_ANS_IO_BASE = 256u;
+  for (uint32_t st = DRACO_ANS_L_BASE; st < DRACO_ANS_L_BASE * DRACO_ANS_IO_BASE; ++st) {
+    uint8_t buf[16] = {0};
+    draco::AnsCoder c;
+    draco::ans_write_init(&c, buf);
+    c.state = st;
+    const int n = draco::ans_write_end(&c);
+    draco::AnsDecoder d;
+    if (n < 1 || n > 8 || draco::ans_read_init(&d, buf, n) != 0) return "rABS final state " + std::to_string(st) + ": ans_read_init rejects what ans_write_end wrote (" + std::to_string(n) + " bytes)";
+    if (d.state != st) return "rABS final state " + std::to_string(st) + " is read back as " + std::to_string(d.state);
+    stats().evaluations++;
+  }
+  count("rabs_final_states_enumerated", DRACO_ANS_L_BASE * (DRACO_ANS_IO_BASE - 1));
+  return "";
+}
+
 static std::string enum_c17(int shard, int nshards) {
   std::string e;
+  if (shard == 4 % nshards) e = enum_ans_final_states();
   if (shard % nshards == 0 % nshards) {
     if (e.empty()) e = enum_varint_type<uint8_t>("uint8");
     if (e.empty()) e = enum_varint_type<int8_t>("int8");
